@@ -142,7 +142,9 @@ class RawMeshData:
 
     def _prepare_vertices(self):
         for iv in self.id_vertices:
-            self.vertices[iv] = Vec(np.array(self.vertices[iv], dtype=float))
+            v = np.array(self.vertices[iv], dtype=float)
+            if v.shape == (2,): v = np.append(v, 0.) # 2D points live in the plane z=0, as in from_arrays
+            self.vertices[iv] = Vec(v)
 
     def _prepare_edges(self):
         N = len(self.vertices)
